@@ -1,13 +1,13 @@
-(* Resolution independence: multiplying every time stamp and duration of a frame by a positive constant k multiplies the
-   time-valued results of the models by k and leaves everything else alone.  A trace with fractional microseconds (ns rounding
-   disabled) whose times share the denominator k is therefore decided by the integer model on the scaled trace; the harness
-   uses k = 4 (quarter-microsecond cases, framework.resolution). *)
-From HTA.lib Require Import Base.
-From HTA.model Require Import C15_Model.
+(* Resolution independence, shared part: multiplying every time stamp and duration of a frame by a positive constant k.
+   A trace with fractional microseconds (ns rounding disabled) whose times share the denominator k is decided by the integer
+   models on the scaled trace (the harness uses k = 4: quarter-microsecond cases, framework.resolution); the per-property files
+   Cxx_Scale.v prove that the models' time-valued results are multiplied by k and everything else is unchanged. *)
+From HTA.lib Require Import Base Cells Intervals Sweep.
 Open Scope Z_scope.
 
 Definition scale_ev (k : Z) (e : ev) : ev :=
   mkEv (idx e) (k * ts e) (k * dur e) (pid e) (tid e) (stream e) (corr e) (icorr e) (iter e) (name e) (cat e).
+
 Definition scale_evs (k : Z) (l : list ev) : list ev := map (scale_ev k) l.
 
 Lemma filter_map_comm {A B} (f : A -> B) (p : B -> bool) (q : A -> bool) (l : list A) :
@@ -25,42 +25,23 @@ Lemma flat_map_ext_eq {A B} (f g : A -> list B) (l : list A) :
   (forall x, f x = g x) -> flat_map f l = flat_map g l.
 Proof. intro H. induction l as [|x l IH]; cbn [flat_map]; [reflexivity|]. rewrite H, IH. reflexivity. Qed.
 
-(* ---------- C15 ---------- *)
-Definition scale_row15 (k : Z) (r : list Z) : list Z :=
-  match r with
-  | [c; a; b; d] => [c; k * a; k * b; k * d]
-  | _ => r
-  end.
+Lemma ltb_scale k a b : 0 < k -> (k * a <? k * b) = (a <? b).
+Proof. intro Hk. destruct (Z.ltb_spec a b); destruct (Z.ltb_spec (k * a) (k * b)); try reflexivity; nia. Qed.
 
-Lemma launch_corrs_scale k mem l : launch_corrs mem (scale_evs k l) = launch_corrs mem l.
-Proof.
-  unfold launch_corrs, scale_evs.
-  rewrite (filter_map_comm (scale_ev k) _ (fun e => is_launch_name mem (name e))) by reflexivity.
-  rewrite map_map. reflexivity.
-Qed.
+Lemma eqb_scale k a b : 0 < k -> (k * a =? k * b) = (a =? b).
+Proof. intro Hk. destruct (Z.eqb_spec a b); destruct (Z.eqb_spec (k * a) (k * b)); try reflexivity; nia. Qed.
 
-Lemma cpu_sel_scale k mem l : cpu_sel mem (scale_evs k l) = scale_evs k (cpu_sel mem l).
-Proof.
-  unfold cpu_sel. rewrite launch_corrs_scale. unfold scale_evs.
-  apply filter_map_comm. reflexivity.
-Qed.
+Lemma eqb0_scale k a : 0 < k -> (k * a =? 0) = (a =? 0).
+Proof. intro Hk. destruct (Z.eqb_spec a 0); destruct (Z.eqb_spec (k * a) 0); try reflexivity; nia. Qed.
 
-Lemma gpu_sel_scale k mem l : gpu_sel mem (scale_evs k l) = scale_evs k (gpu_sel mem l).
-Proof.
-  unfold gpu_sel. rewrite launch_corrs_scale. unfold scale_evs.
-  apply filter_map_comm. reflexivity.
-Qed.
+Lemma ltb0_scale k a : 0 < k -> (0 <? k * a) = (0 <? a).
+Proof. intro Hk. destruct (Z.ltb_spec 0 a); destruct (Z.ltb_spec 0 (k * a)); try reflexivity; nia. Qed.
 
-Lemma pairs_scale k mem l :
-  pairs mem (scale_evs k l) = map (fun p => (scale_ev k (fst p), scale_ev k (snd p))) (pairs mem l).
-Proof.
-  unfold pairs. rewrite cpu_sel_scale, gpu_sel_scale. unfold scale_evs.
-  generalize (gpu_sel mem l) as G. intro G.
-  induction (cpu_sel mem l) as [|r rs IH]; cbn [flat_map map]; [reflexivity|].
-  rewrite map_app, IH. f_equal.
-  rewrite (filter_map_comm (scale_ev k) _ (fun k0 => corr k0 =? corr r)) by reflexivity.
-  rewrite !map_map. reflexivity.
-Qed.
+Lemma sub_eqb0_scale k a b : 0 < k -> (k * a - k * b =? 0) = (a - b =? 0).
+Proof. intro Hk. destruct (Z.eqb_spec (a - b) 0); destruct (Z.eqb_spec (k * a - k * b) 0); try reflexivity; nia. Qed.
+
+Lemma sub_ltb0_scale k a b : 0 < k -> (k * a - k * b <? 0) = (a - b <? 0).
+Proof. intro Hk. destruct (Z.ltb_spec (a - b) 0); destruct (Z.ltb_spec (k * a - k * b) 0); try reflexivity; nia. Qed.
 
 Lemma max0_scale k x : 0 <= k -> Z.max 0 (k * x) = k * Z.max 0 x.
 Proof.
@@ -69,53 +50,17 @@ Proof.
   - rewrite Z.mul_0_r. apply Z.max_l. apply Z.mul_nonneg_nonpos; lia.
 Qed.
 
-Lemma row_scale k r g : 0 <= k -> row (scale_ev k r, scale_ev k g) = scale_row15 k (row (r, g)).
-Proof.
-  intro Hk. unfold row, scale_row15, scale_ev. cbn [corr dur ts].
-  replace (k * ts g - k * ts r - k * dur r) with (k * (ts g - ts r - dur r)) by ring.
-  rewrite max0_scale by exact Hk. reflexivity.
-Qed.
+Lemma max_scale k a b : 0 <= k -> Z.max (k * a) (k * b) = k * Z.max a b.
+Proof. intro Hk. destruct (Z.max_spec a b) as [[H1 H2]|[H1 H2]]; rewrite H2; [apply Z.max_r|apply Z.max_l]; nia. Qed.
 
-Theorem C15_scale k mem l : 0 <= k -> model_C15 mem (scale_evs k l) = map (scale_row15 k) (model_C15 mem l).
-Proof.
-  intro Hk. unfold model_C15. rewrite pairs_scale, !map_map. apply map_ext.
-  intros [r g]. cbn [fst snd]. apply row_scale. exact Hk.
-Qed.
+Lemma min_scale k a b : 0 <= k -> Z.min (k * a) (k * b) = k * Z.min a b.
+Proof. intro Hk. destruct (Z.min_spec a b) as [[H1 H2]|[H1 H2]]; rewrite H2; [apply Z.min_l|apply Z.min_r]; nia. Qed.
 
-(* ---------- C06 ---------- *)
-From HTA.model Require Import C06_Model.
+Lemma sumZ_scale k l : sumZ (map (Z.mul k) l) = k * sumZ l.
+Proof. induction l as [|x r IH]; cbn [map sumZ fold_right]; [ring|]. unfold sumZ in *. cbn [fold_right]. rewrite IH. ring. Qed.
 
 Lemma eend_scale k e : eend (scale_ev k e) = k * eend e.
 Proof. unfold eend, scale_ev. cbn [ts dur]. ring. Qed.
-
-Lemma ltb_scale k a b : 0 < k -> (k * a <? k * b) = (a <? b).
-Proof. intro Hk. destruct (Z.ltb_spec a b); destruct (Z.ltb_spec (k * a) (k * b)); try reflexivity; nia. Qed.
-
-Lemma eqb_scale k a b : 0 < k -> (k * a =? k * b) = (a =? b).
-Proof. intro Hk. destruct (Z.eqb_spec a b); destruct (Z.eqb_spec (k * a) (k * b)); try reflexivity; nia. Qed.
-
-Lemma ev_lt_scale k x y : 0 < k -> ev_lt (scale_ev k x) (scale_ev k y) = ev_lt x y.
-Proof.
-  intro Hk. unfold ev_lt. rewrite !eend_scale. unfold scale_ev at 1 2 3 4. cbn [ts].
-  rewrite !ltb_scale, eqb_scale by exact Hk. reflexivity.
-Qed.
-
-Lemma insert_ev_scale k x l : 0 < k ->
-  insert_ev (scale_ev k x) (scale_evs k l) = scale_evs k (insert_ev x l).
-Proof.
-  intro Hk. induction l as [|y r IH]; cbn [scale_evs map insert_ev]; [reflexivity|].
-  rewrite ev_lt_scale by exact Hk. destruct (ev_lt x y); cbn [map]; [reflexivity|].
-  f_equal. exact IH.
-Qed.
-
-Lemma sort_ev_scale k l : 0 < k -> sort_ev (scale_evs k l) = scale_evs k (sort_ev l).
-Proof.
-  intro Hk. unfold sort_ev. induction l as [|x r IH]; cbn [scale_evs map fold_right]; [reflexivity|].
-  fold (scale_evs k r). rewrite IH. apply insert_ev_scale. exact Hk.
-Qed.
-
-Lemma stream_kernels_scale k l s : stream_kernels (scale_evs k l) s = scale_evs k (stream_kernels l s).
-Proof. unfold stream_kernels, scale_evs. apply filter_map_comm. reflexivity. Qed.
 
 Lemma find_scale k (p : ev -> bool) l :
   (forall e, p (scale_ev k e) = p e) -> find p (scale_evs k l) = option_map (scale_ev k) (find p l).
@@ -124,68 +69,11 @@ Proof.
   rewrite H. destruct (p x); [reflexivity|]. exact IH.
 Qed.
 
-Lemma ts_runtime_scale k l e : ts_runtime (scale_evs k l) (scale_ev k e) = option_map (Z.mul k) (ts_runtime l e).
-Proof.
-  unfold ts_runtime. unfold scale_ev at 1 2. cbn [icorr]. destruct (0 <? icorr e); [|reflexivity].
-  rewrite find_scale by reflexivity. destruct (find _ l); reflexivity.
-Qed.
-
-Lemma classify_scale k d rt pe gap : 0 < k ->
-  classify (k * d) (option_map (Z.mul k) rt) (k * pe) (k * gap) = classify d rt pe gap.
-Proof.
-  intro Hk. unfold classify. destruct rt as [r|]; cbn [option_map]; rewrite ?ltb_scale by exact Hk; reflexivity.
-Qed.
-
-Definition scale_gap (k : Z) (g : Z * Z) : Z * Z := (fst g, k * snd g).
-
-Lemma walk_scale k l d pe ks : 0 < k ->
-  walk (scale_evs k l) (k * d) (k * pe) (scale_evs k ks) = map (scale_gap k) (walk l d pe ks).
-Proof.
-  intro Hk. revert pe. induction ks as [|e r IH]; intro pe; cbn [scale_evs map walk]; [reflexivity|].
-  fold (scale_evs k r). rewrite ts_runtime_scale, eend_scale, IH.
-  unfold scale_gap at 2. cbn [fst snd]. unfold scale_ev at 1 2. cbn [ts].
-  replace (k * ts e - k * pe) with (k * (ts e - pe)) by ring.
-  rewrite classify_scale by exact Hk. reflexivity.
-Qed.
-
-Lemma gaps_sorted_scale k l d ks : 0 < k ->
-  gaps_sorted (scale_evs k l) (k * d) (scale_evs k ks) = map (scale_gap k) (gaps_sorted l d ks).
-Proof.
-  intro Hk. destruct ks as [|e r]; cbn [scale_evs map gaps_sorted]; [reflexivity|].
-  fold (scale_evs k r). rewrite eend_scale. apply walk_scale. exact Hk.
-Qed.
-
-Lemma sumZ_scale k l : sumZ (map (Z.mul k) l) = k * sumZ l.
-Proof. induction l as [|x r IH]; cbn [map sumZ fold_right]; [ring|]. unfold sumZ in *. cbn [fold_right]. rewrite IH. ring. Qed.
-
-Lemma cat_sum_scale k c gs : cat_sum c (map (scale_gap k) gs) = k * cat_sum c gs.
-Proof.
-  unfold cat_sum. rewrite <- sumZ_scale. f_equal.
-  induction gs as [|g r IH]; [reflexivity|].
-  cbn [map filter]. unfold scale_gap at 1. cbn [fst snd].
-  destruct (fst g =? c); cbn [map snd]; rewrite IH; reflexivity.
-Qed.
-
-Theorem C06_scale k l d s : 0 < k ->
-  model_C06 (scale_evs k l) (k * d) s = map (Z.mul k) (model_C06 l d s).
-Proof.
-  intro Hk. unfold model_C06. rewrite stream_kernels_scale, sort_ev_scale, gaps_sorted_scale by exact Hk.
-  rewrite !cat_sum_scale. reflexivity.
-Qed.
-
-(* ---------- intervals, boundary rows and the sweep ---------- *)
-From HTA.lib Require Import Cells Intervals Sweep.
-From HTA.model Require Import C04_Model C07_Model.
-
 Definition sitv (k : Z) (i : itv) : itv := (k * fst i, k * snd i).
+
 Definition sitvs (k : Z) (l : list itv) : list itv := map (sitv k) l.
+
 Definition srow (k : Z) (r : row) : row := (k * fst r, snd r).
-
-Lemma max_scale k a b : 0 <= k -> Z.max (k * a) (k * b) = k * Z.max a b.
-Proof. intro Hk. destruct (Z.max_spec a b) as [[H1 H2]|[H1 H2]]; rewrite H2; [apply Z.max_r|apply Z.max_l]; nia. Qed.
-
-Lemma min_scale k a b : 0 <= k -> Z.min (k * a) (k * b) = k * Z.min a b.
-Proof. intro Hk. destruct (Z.min_spec a b) as [[H1 H2]|[H1 H2]]; rewrite H2; [apply Z.min_l|apply Z.min_r]; nia. Qed.
 
 Lemma insert_ts_scale k x l : 0 < k -> insert_ts (sitv k x) (sitvs k l) = sitvs k (insert_ts x l).
 Proof.
@@ -237,19 +125,6 @@ Qed.
 Lemma rows_of_scale k v l : rows_of v (sitvs k l) = map (srow k) (rows_of v l).
 Proof. unfold rows_of, sitvs. rewrite map_app, !map_map. reflexivity. Qed.
 
-Lemma insert_time_scale k x l : 0 < k -> insert_time (srow k x) (map (srow k) l) = map (srow k) (insert_time x l).
-Proof.
-  intro Hk. induction l as [|y r IH]; cbn [map insert_time]; [reflexivity|].
-  unfold srow at 1 2. cbn [fst]. rewrite ltb_scale by exact Hk.
-  destruct (fst x <? fst y); cbn [map]; [reflexivity|]. f_equal. exact IH.
-Qed.
-
-Lemma sort_time_scale k l : 0 < k -> sort_time (map (srow k) l) = map (srow k) (sort_time l).
-Proof.
-  intro Hk. unfold sort_time. induction l as [|x r IH]; cbn [map fold_right]; [reflexivity|].
-  rewrite IH. apply insert_time_scale. exact Hk.
-Qed.
-
 Lemma sweep_cons2 sel acc r r' rest :
   sweep sel acc (r :: r' :: rest) = (if sel (acc + snd r) then fst r' - fst r else 0) + sweep sel (acc + snd r) (r' :: rest).
 Proof. reflexivity. Qed.
@@ -260,36 +135,4 @@ Proof.
   destruct rest as [|r' rest']; [cbn [map sweep]; ring|].
   rewrite sweep_cons2. rewrite !map_cons, sweep_cons2. rewrite <- map_cons, IH.
   unfold srow. cbn [fst snd]. destruct (sel (acc + snd r)); ring.
-Qed.
-
-Lemma itv_of_scale k e : itv_of (scale_ev k e) = sitv k (itv_of e).
-Proof. unfold itv_of, sitv, scale_ev. cbn [ts dur fst snd]. f_equal. ring. Qed.
-
-Lemma itvs_scale k (p : ev -> bool) l : (forall e, p (scale_ev k e) = p e) ->
-  map itv_of (filter p (scale_evs k l)) = sitvs k (map itv_of (filter p l)).
-Proof.
-  intro H. unfold scale_evs. rewrite (filter_map_comm (scale_ev k) p p) by exact H.
-  unfold sitvs. rewrite !map_map. apply map_ext. intro e. apply itv_of_scale.
-Qed.
-
-(* ---------- C04 ---------- *)
-Definition scale4 (k : Z) (x : Z * Z * Z * Z) : Z * Z * Z * Z :=
-  let '(a, b, c, d) := x in (k * a, k * b, k * c, k * d).
-
-Theorem C04_scale k l : 0 < k -> model_C04 (scale_evs k l) = scale4 k (model_C04 l).
-Proof.
-  intro Hk. unfold model_C04, dev_itvs, comp_itvs.
-  rewrite !itvs_scale by reflexivity. rewrite !sort_ts_scale by exact Hk.
-  unfold breakdown. rewrite !merge_sorted_scale by exact Hk.
-  rewrite !total_scale, first_ts_scale, last_end_scale. unfold scale4. f_equal; [f_equal; [f_equal|]|]; ring.
-Qed.
-
-(* ---------- C07 ---------- *)
-Theorem C07_scale k l : 0 < k -> model_C07 (scale_evs k l) = (k * fst (model_C07 l), k * snd (model_C07 l)).
-Proof.
-  intro Hk. unfold model_C07, comm_itvs, comp_itvs.
-  rewrite !itvs_scale by reflexivity. rewrite !sort_ts_scale by exact Hk.
-  unfold overlap. rewrite !merge_sorted_scale by exact Hk. cbn [fst snd].
-  unfold status_rows. rewrite !rows_of_scale, <- map_app, sort_time_scale by exact Hk.
-  rewrite sweep_scale, total_scale. reflexivity.
 Qed.
